@@ -8,10 +8,11 @@ every emitted function natively on the input table and comparing with TLC's outp
 import json
 
 NAMINGS = [
-    {"a": "a", "b": "b", "s": "s", "i": "i", "j": "j", "x": "x", "y": "y", "g": "g", "n": "n", "c": ""},
+    {"a": "a", "b": "b", "s": "s", "i": "i", "j": "j", "x": "x", "y": "y", "g": "g", "n": "n", "c": "", "l": "outer"},
     {"a": "left", "b": "right", "s": "total", "i": "idx", "j": "jdx", "x": "first", "y": "second", "g": "apply", "n": "depth",
-     "c": "\t// renamed variant\n"},
-    {"a": "p0", "b": "p1", "s": "acc", "i": "k", "j": "m", "x": "t0", "y": "t1", "g": "fn", "n": "lvl", "c": "\n\t/* spaced\n\t   out */\n"},
+     "c": "\t// renamed variant\n", "l": "rows"},
+    {"a": "p0", "b": "p1", "s": "acc", "i": "k", "j": "m", "x": "t0", "y": "t1", "g": "fn", "n": "lvl", "c": "\n\t/* spaced\n\t   out */\n",
+     "l": "L0"},
 ]
 COMM = {"+", "*"}
 
@@ -133,6 +134,12 @@ def emit(p, fname, naming=0):
         ret = {"i-j": "%s - %s" % (i, j), "j-i": "%s - %s" % (j, i), "i+j": "%s + %s" % (i, j), "i*2+j": "%s*2 + %s" % (i, j)}[p["ret"]]
         return sig + ("\t%s := 0\n\tfor ; %s < clamp(%s); %s++ {\n\t}\n\t%s := 0\n\tfor ; %s < clamp(%s); %s++ {\n\t}\n\treturn %s\n}\n"
                       % (i, i, a, i, j, j, b, j, ret))
+    if t == "labeled":
+        s_, i, j, x, y, lab = N["s"], N["i"], N["j"], N["x"], N["y"], N["l"]
+        g = {"i*10+j": "%s*10 + %s" % (i, j), "j*10+i": "%s*10 + %s" % (j, i), "i+j": "%s + %s" % (i, j)}[p["g"]]
+        return sig + ("\t%s, %s := clamp(%s), clamp(%s)\n\t%s := 0\n%s:\n\tfor %s := 0; %s < %s; %s++ {\n\t\tfor %s := 0; %s < %s; %s++ {\n"
+                      "\t\t\tif %s*%s > %d {\n\t\t\t\t%s %s\n\t\t\t}\n\t\t\t%s += %s\n\t\t}\n\t}\n\treturn %s\n}\n") % (
+            x, y, a, b, s_, lab, i, i, x, i, j, j, y, j, i, j, p["lim"], p["jump"], lab, s_, g, s_)
     if t == "dectree":
         cond = lambda c: "%s > 0" % b if c == "b>0" else "%s > %s" % (a, b)
         L = [expr(p[k], N, pres) for k in ("l1", "l2", "l3", "l4")]
